@@ -207,6 +207,39 @@ func (ch c01) Run(c *core.Ctx) {
 			return
 		}
 	}
+	// the start-up packet arrives on a connection accepted before Server.Close was called: a closing
+	// server may refuse the connection, but it may not wave it through without the strategy's consent
+	for k := 0; k < 3 && c.Begin(4000000+k); k++ {
+		e2 := hs.Start(hs.Parse, wire.SessionAuthStrategy(wire.ClearTextPassword(c01validator)), wire.SessionMiddleware(c01session))
+		conn := e2.Dial(&hs.Sess{Default: func(string) *hs.Prog { return probe }})
+		conn.Quiesce()
+		e2.Srv.Close()
+		in := pg.Startup([][2]string{{"user", "late"}})
+		switch k {
+		case 1:
+			in = append(in, pg.Password("no:wrong")...)
+		case 2:
+			in = append(append(in, pg.Password("no:wrong")...), pg.Query("select 'after close'")...)
+		}
+		conn.Send(in)
+		conn.Quiesce()
+		out := conn.Out()
+		kinds := replyKinds(out)
+		served := ""
+		for _, e := range conn.Events() {
+			if e.Kind == "cb" && e.Name != "validate" {
+				served += e.Name + " "
+			}
+		}
+		if strings.Contains(kinds, "R(0)") || strings.Contains(kinds, "Z") || served != "" {
+			c.Violate("session-without-acceptance", "a connection whose credentials were never accepted reached the authenticated phase (start-up after Server.Close)", fmt.Sprintf("variant %d: reply %s, callbacks: %s", k, kinds, served), nil)
+		}
+		c.Count("startup_after_close", 1)
+		c.Eval(fmt.Sprintf("startup after close %d", k), true)
+		conn.CloseWrite()
+		conn.WaitClosed()
+		<-e2.ServeErr
+	}
 	// several connections authenticate at the same time (accepting and rejecting credentials mixed,
 	// the validator yields before it decides): every connection is judged exactly as when alone
 	groups := 40
